@@ -40,3 +40,16 @@ pub fn hash_or_insert_<'a, 'b>(m: &'b mut HashMap<&'a TransactionInput, usize>, 
 /// `m.values().sum()`
 #[verifier::external_body]
 pub fn hash_values_sum_<'a>(m: &HashMap<&'a TransactionInput, usize>) -> (r: usize) ensures r == map_total(m@) { unimplemented!() }
+
+// ---- the two setters of the explicit reference inputs (C06: the reference-script fee is charged on the sizes declared here)
+impl ReferenceInputsMap {
+    /// the script size declared for an explicit reference input (None: not a declared reference input); the BTreeMap behind `entries()`
+    pub uninterp spec fn declared(&self, k: TransactionInput) -> Option<usize>;
+    /// `self.reference_inputs.entry(k).or_insert(0)` (R-entryorinsert)
+    #[verifier::external_body] pub fn or_insert_zero_(&mut self, k: TransactionInput)
+        ensures final(self).declared(k) == (if old(self).declared(k) is Some { old(self).declared(k) } else { Some(0usize) }),
+                forall|j: TransactionInput| j != k ==> final(self).declared(j) == old(self).declared(j) { unimplemented!() }
+    /// `self.reference_inputs.insert(k, size)`
+    #[verifier::external_body] pub fn insert_(&mut self, k: TransactionInput, size: usize)
+        ensures final(self).declared(k) == Some(size), forall|j: TransactionInput| j != k ==> final(self).declared(j) == old(self).declared(j) { unimplemented!() }
+}
